@@ -24,23 +24,36 @@ Open Scope string_scope.
 """
 
 
+def wrap(v, kind):
+    """the kinds of values a task hands over: plain tuple, numpy object array, an object of a class with a registered
+    custom serde (when the job registers it), an object of a strict subclass of that class"""
+    import c01values
+    if kind == 0:
+        return sc.wrap_val(v, True)
+    if kind == 2:
+        return c01values.Box(v)
+    if kind == 3:
+        return c01values.SubBox(v)
+    return v
+
+
 def make_funcs(spec, seed=1):
-    """tagging callables; about half of the values are numpy object arrays (as real outputs are array data)"""
+    """tagging callables"""
     funcs = []
     for k, t in enumerate(spec["tasks"]):
         n = t["nout"]
         if n == 1:
             def f(*args, _k=k, **kwargs):
-                return sc.wrap_val(("T", _k, 0, args, tuple(sorted(kwargs.items()))), (_k + seed) % 2 == 0)
+                return wrap(("T", _k, 0, args, tuple(sorted(kwargs.items()))), (_k + seed) % 4)
         else:
             def f(*args, _k=k, _n=n, **kwargs):
                 for o in range(_n):
-                    yield sc.wrap_val(("T", _k, o, args, tuple(sorted(kwargs.items()))), (_k + o + seed) % 2 == 0)
+                    yield wrap(("T", _k, o, args, tuple(sorted(kwargs.items()))), (_k + o + seed) % 4)
         funcs.append(f)
     return funcs
 
 
-def reference(spec):
+def reference(spec, seed=1):
     """sequential one-process evaluation with the binding the job states (even edges positional, odd keyword)"""
     val = {}
     for k, t in enumerate(spec["tasks"]):
@@ -55,7 +68,7 @@ def reference(spec):
         for i, v in ps.items():
             args[i] = v
         for o in range(t["nout"]):
-            val[(k, o)] = ("T", k, o, tuple(args), tuple(sorted(kw.items())))
+            val[(k, o)] = wrap(("T", k, o, tuple(args), tuple(sorted(kw.items()))), (k + o + seed) % 4)
     return val
 
 
@@ -66,10 +79,15 @@ class HostMemory:
         self.c, self.h = cluster, h
 
     def provide(self, ds, annotation):
-        return self.c.values[(self.h, self.c.key[self.c.ds_id(ds)])]
+        from cascade.executor import serde
+        raw, deser_fun = self.c.values[(self.h, self.c.key[self.c.ds_id(ds)])]
+        return serde.des_output(raw, annotation, deser_fun)
 
     def handle(self, outputId, outputSchema, outputValue, isPublish):
-        self.c.values[(self.h, self.c.key[self.c.ds_id(outputId)])] = outputValue
+        # as runner.memory.Memory.handle does: the real serde.ser_output picks the encoding (custom serde registered by
+        # the job for exactly this type, cloudpickle otherwise); the bytes and the decoder's name are what the store holds
+        from cascade.executor import serde
+        self.c.values[(self.h, self.c.key[self.c.ds_id(outputId)])] = serde.ser_output(outputValue, outputSchema)
 
 
 def executor(cluster, w, t, h):
@@ -83,13 +101,19 @@ def executor(cluster, w, t, h):
 
 
 def run_case_real(spec, seed, mode):
-    return sc.run_case(spec, seed, mode, executor=executor, funcs=make_funcs(spec, seed))
+    from cascade.executor import serde
+    from cascade.low.core import type_enc
+    import c01values
+    # every job runs in fresh processes in reality: nothing registered by an earlier job may linger
+    serde.SerdeRegistry.serde.clear()
+    serdes = {type_enc(c01values.Box): ("c01values.box_ser", "c01values.box_des")} if seed % 3 != 0 else None
+    return sc.run_case(spec, seed, mode, executor=executor, funcs=make_funcs(spec, seed), serdes=serdes)
 
 
 def value_oracle(r, res, cj):
     if r["outcome"] != "ok" or r["outputs"] is None:
         return
-    ref = reference(r["spec"])
+    ref = reference(r["spec"], r["seed"])
     for d, v in r["outputs"].items():
         if v is None:
             continue   # not delivered: reported by post_checks as requested-output-missing
@@ -101,7 +125,7 @@ def real_to_symbolic(r):
     """the Coq replay works with symbolic values: map each real output value back to the dataset it is the value of"""
     if r["outputs"] is None:
         return r
-    ref = reference(r["spec"])
+    ref = reference(r["spec"], r["seed"])
     inv = {}
     for d, v in ref.items():
         inv.setdefault(repr(sc.norm_value(v)), d)
